@@ -559,7 +559,17 @@ class FileCache:
         filepaths = [self._cache_file_path(uri) for uri in uris]
 
         # for all URI's not in cache
-        if cache_misses := self.get_cache_misses(uris, directives):
+        cache_misses = self.get_cache_misses(uris, directives)
+
+        # Touch the cache hits so that files used by the current request are
+        # the last to be evicted.
+        missed = [cache_miss.filename for cache_miss in cache_misses]
+        for uri in uris:
+            hashkey = self._cache_file_name(uri)
+            if hashkey not in missed:
+                self._get_from_cache(hashkey)
+
+        if cache_misses:
             was_succesfully_downloaded = _download_from_resources(
                 cache_misses,
                 self.resources,
